@@ -18,6 +18,7 @@ PUBLIC_OPS = (
     "slice_auto", "slice_reconf", "slice_reconf_forest", "copy", "stats", "stats",
     "manual", "sort", "reset", "nonplace_slice", "nonplace_reconf",
     "nonplace_restore", "nonplace_unslice", "nonplace_anneal", "nonplace_slice_auto",
+    "refused", "refused",
 )
 
 
@@ -34,6 +35,10 @@ def gen_history(rng, net, length, ops=PUBLIC_OPS, allow=None):
             op["ix"] = rng.choice(inds)
             if k == "project":
                 op["val"] = rng.randrange(net.sizes[op["ix"]])
+        elif k == "refused":
+            op["pick"] = rng.randrange(1 << 16)
+            op["what"] = rng.choice(["slice-again", "slice-again", "project-again", "restore-unsliced", "slice-unknown"])
+            op["ix"] = rng.choice(inds)
         elif k in ("restore", "nonplace_restore"):
             op["pick"] = rng.randrange(1 << 16)
             op["ix"] = rng.choice(inds)  # fallback: slice this one when nothing is sliced yet
@@ -158,6 +163,32 @@ def _apply_op(tree, net, op):
         if ix in tree.sliced_inds:
             raise Rejected("already sliced")
         return tree.remove_ind(ix), [{"k": "remove_ind", "ix": op["ix"], "project": False}]
+    if k == "refused":
+        # a request the tree must refuse (ValueError / KeyError) -- and which must leave it exactly as it was:
+        # the caller catches the exception and keeps using the same object
+        w = op["what"]
+        keys = list(tree.sliced_inds)
+        try:
+            if w in ("slice-again", "project-again"):
+                if not keys:
+                    raise Rejected("nothing sliced")
+                ix = keys[op["pick"] % len(keys)]
+                if w == "slice-again":
+                    tree.remove_ind_(ix)
+                else:
+                    tree.remove_ind_(ix, project=0)
+            elif w == "restore-unsliced":
+                ix = S(op["ix"])
+                if ix in tree.sliced_inds:
+                    raise Rejected("is sliced")
+                tree.restore_ind_(ix)
+            else:
+                tree.remove_ind_("no-such-index-%d" % op["pick"])
+        except Rejected:
+            raise
+        except (ValueError, KeyError):
+            return tree, []
+        raise ValueError("request %s was not refused" % w)
     if k == "nonplace_restore":
         if not tree.sliced_inds:
             raise Rejected("nothing sliced")
